@@ -56,7 +56,7 @@ ReadFrom(ls, i, st, hdr, label, letters, offset) ==
       [] st = 2 /\ line # <<>> ->
            IF IsID2(line) /\ (Len(line) = 1 \/ Tail(label) = Tail(line))
              THEN ReadFrom(ls, i + 1, 4, hdr, label, letters, offset)     \* empty sequence
-             ELSE ReadFrom(ls, i + 1, 3, hdr, label, NoSpace(line), offset)
+             ELSE ReadFrom(ls, i + 1, 3, hdr, label, NoSpaceLatin1(line), offset)
       [] st = 4 ->
            IF line = <<>> /\ letters # <<>> THEN ReadFrom(ls, i + 1, 4, hdr, label, letters, offset)
            ELSE Finish(hdr, letters, line, offset, i + 1)
